@@ -1,6 +1,7 @@
 package main
 
 import (
+	"math"
 	"bufio"
 	"bytes"
 	"fmt"
@@ -593,6 +594,31 @@ func init() {
 			}
 		}
 		return nil
+	}
+	// math on concrete floats natively; a whole-number symbolic float is its own Trunc/Floor/Ceil
+	for name, f := range map[string]func(float64) float64{"math.Trunc": math.Trunc, "math.Floor": math.Floor, "math.Ceil": math.Ceil, "math.Abs": math.Abs, "math.Round": math.Round} {
+		name, f := name, f
+		stubs[name] = func(m *Machine, fr *frame, fn *ssa.Function, a []Val) Val {
+			if sf, ok := a[0].(*SymFloat); ok {
+				if sf.I != nil && name != "math.Abs" {
+					return sf
+				}
+				return f(m.sfConc(sf))
+			}
+			return f(a[0].(float64))
+		}
+	}
+	stubs["math.IsNaN"] = func(m *Machine, fr *frame, fn *ssa.Function, a []Val) Val {
+		if _, ok := a[0].(*SymFloat); ok {
+			return false
+		}
+		return math.IsNaN(a[0].(float64))
+	}
+	stubs["math.IsInf"] = func(m *Machine, fr *frame, fn *ssa.Function, a []Val) Val {
+		if _, ok := a[0].(*SymFloat); ok {
+			return false
+		}
+		return math.IsInf(a[0].(float64), int(cInt(m, a[1], "IsInf sign")))
 	}
 	// sync.Pool: a last-in first-out free list per Pool variable; Get falls back to the New function
 	stubs["(*sync.Pool).Put"] = func(m *Machine, fr *frame, fn *ssa.Function, a []Val) Val {
